@@ -297,3 +297,29 @@ def _(self: Union[AUTDAT(0), AUTDAT(1), AUTDAT(2), AUTDAT(3)]) -> bytes:
                 for i in range(k)), label="blocks-address-then-size-big-endian-in-order")
     modifies(self._header.length)
     sample_with(lambda rnd: {"self": _mk_aut(rnd)})
+
+
+# ---- MAC structure of an encrypted image (nonce || MAC the ROM feeds to AES-CCM) -----------------------------------------------------------
+from spsdk.image.secret import MAC  # noqa: E402
+
+inline("spsdk.image.secret:MAC.size", "spsdk.image.secret:MAC._validate_data", "spsdk.image.secret:MAC.data", "spsdk.image.secret:MAC.__init__",
+       "spsdk.image.secret:BaseSecretClass.__init__", "spsdk.image.secret:MAC.parse", "spsdk.image.secret:BaseSecretClass.version")
+
+
+def MACOBJ():
+    return Obj(MAC, _header=Obj(Header, _tag=Const(0xAC), param=Range(0x40, 0x45), length=Range(4, 65535)), nonce_len=Range(0, 13), mac_len=Range(4, 16), _data=Bytes(lo=0, hi=32))
+
+
+@contract("spsdk.image.secret:MAC.export")
+def _(self: MACOBJ()) -> bytes:
+    raises(SPSDKError, len(self._data) != self.nonce_len + self.mac_len, label="data-must-be-nonce-plus-mac")
+    returns(bytes([0xAC]) + (8 + self.nonce_len + self.mac_len).to_bytes(2, "big") + bytes([self._header.param, 0, self.nonce_len, 0, self.mac_len]) + self._data,
+            label="tag-length-version-noncelen-maclen-then-nonce-mac")
+    modifies(self._header.length)
+    sample_with(lambda rnd: (lambda n, m: {"self": MAC(0x40 + rnd.randrange(4), n, m, bytes(rnd.getrandbits(8) for _ in range(n + m)))})(rnd.choice([11, 12, 13]), rnd.choice([4, 8, 16])))
+
+
+@lemma("mac-structure-parse-inverts-export")
+def _(version: Range(0x40, 0x45), nonce: Union[Bytes(11), Bytes(12), Bytes(13)], mac: Union[Bytes(4), Bytes(6), Bytes(16)]):
+    let(back=MAC.parse(bytes([0xAC]) + (8 + len(nonce) + len(mac)).to_bytes(2, "big") + bytes([version, 0, len(nonce), 0, len(mac)]) + nonce + mac + bytes(7)))
+    ensures(back.nonce_len == len(nonce) and back.mac_len == len(mac) and back._data == nonce + mac and back._header.param == version, label="nonce-and-mac-come-back")
